@@ -138,7 +138,8 @@ func Load(cfg Config) (*Program, error) {
 		if pk.Types == nil {
 			continue
 		}
-		if illTypedAllowed[pk.PkgPath] || pk.TypesInfo == nil || len(pk.Syntax) == 0 {
+		if illTypedAllowed[pk.PkgPath] || pk.TypesInfo == nil || len(pk.Syntax) == 0 || !strings.HasPrefix(pk.PkgPath, RepoMod) {
+			// dependencies are named APIs only: no function bodies are built for them
 			prog.CreatePackage(pk.Types, nil, nil, true)
 			continue
 		}
